@@ -56,12 +56,60 @@ func curveParams(typ string) (slen, plen int, q string, ok bool) {
 		return 32, 33, qP256, true
 	case "bls12381", "bls12381g1":
 		return 32, 48, qBLS, true
+	case "edwards25519":
+		// little-endian scalars: only the lengths are modelled (q = 2^256 makes the range rule vacuous)
+		return 32, 32, "1" + strings.Repeat("0", 64), true
 	}
 	return 0, 0, "0", false
 }
 
 // modelled reports whether the driver has a schema for the type name.
+// shallowGroups: the type-name prefixes of gen/SerdeDtos.dto_groups (types the model knows by their wire
+// field names only), read from the table block of the generated file.
+var shallowGroupsCache []string
+
+func shallowGroups() []string {
+	if shallowGroupsCache != nil {
+		return shallowGroupsCache
+	}
+	root := os.Getenv("VERIF_ROOT")
+	if root == "" {
+		root = "."
+	}
+	b, err := os.ReadFile(root + "/coq/gen/SerdeDtos.v")
+	shallowGroupsCache = []string{}
+	if err != nil {
+		return shallowGroupsCache
+	}
+	on := false
+	for _, l := range strings.Split(string(b), "\n") {
+		switch {
+		case l == "(*TABLE":
+			on = true
+		case l == "TABLE*)":
+			on = false
+		case on && strings.HasPrefix(l, "group "):
+			if f := strings.Fields(l); len(f) == 3 {
+				shallowGroupsCache = append(shallowGroupsCache, f[1])
+			}
+		}
+	}
+	return shallowGroupsCache
+}
+
+func isShallow(typ string) bool {
+	for _, g := range shallowGroups() {
+		if strings.HasPrefix(typ, g) {
+			return true
+		}
+	}
+	return false
+}
+
 func modelled(typ string) bool {
+	if isShallow(typ) {
+		return true
+	}
 	base := typ
 	if i := strings.IndexByte(typ, '-'); i >= 0 {
 		base = typ[:i]
@@ -79,7 +127,9 @@ func modelled(typ string) bool {
 func tLine(id int, typ string, sm bool, b []byte) string {
 	slen, plen, q, ok := curveParams(typ)
 	name := typ
-	if !ok || !modelled(typ) {
+	if isShallow(typ) {
+		slen, plen, q = 0, 0, "0"
+	} else if !ok || !modelled(typ) {
 		name, slen, plen, q = "generic", 0, 0, "0"
 	}
 	s := "0"
@@ -332,9 +382,9 @@ func genCases(a vh.Args, samples []Sample) []*tcase {
 	var cases []*tcase
 	mutated := map[string]int{}
 	fixedDone := map[string]bool{}
-	maxExpensive, maxPerType := 1, 6
+	maxExpensive, maxPerType, maxMaps := 1, 6, 8
 	if a.Tier == "thorough" || a.Search {
-		maxExpensive, maxPerType = 4, 1<<30
+		maxExpensive, maxPerType, maxMaps = 4, 1<<30, 40
 	}
 	for i := range samples {
 		s := &samples[i]
@@ -382,6 +432,61 @@ func genCases(a vh.Args, samples []Sample) []*tcase {
 					rr := collect(&root)
 					rr[ri].x.n = v
 					m := mutation{Kind: "uint-boundary", Path: rr[ri].path, Bytes: gencode(root)}
+					cases = append(cases, &tcase{class: "mut", sample: s, mut: m, stream: m.Bytes, sm: true})
+				}
+			}
+		}
+		// every map in turn (nested ones too): one extra entry with a fresh key of the map's key type and
+		// each of a few values of the value's kind and of neighbouring kinds; every boolean flipped
+		{
+			probe := tree.clone()
+			refs := collect(&probe)
+			nm, nb := 0, 0
+			for ri, x := range refs {
+				if x.x.kind == 's' && (x.x.n == 20 || x.x.n == 21) && nb < 24 {
+					nb++
+					root := tree.clone()
+					rr := collect(&root)
+					rr[ri].x.n = 41 - rr[ri].x.n
+					m := mutation{Kind: "bool-flip", Path: x.path, Bytes: gencode(root)}
+					cases = append(cases, &tcase{class: "mut", sample: s, mut: m, stream: m.Bytes, sm: true})
+				}
+				if x.x.kind != 'm' || len(x.x.pairs) == 0 || nm >= maxMaps {
+					continue
+				}
+				nm++
+				var vals []*node
+				sib := x.x.pairs[0][1]
+				if sib.kind == 's' && (sib.n == 20 || sib.n == 21) {
+					vals = []*node{{kind: 's', n: 20}, {kind: 's', n: 21}}
+				} else {
+					vals = []*node{{kind: 'u', n: 0}, {kind: 's', n: 22}, {kind: 's', n: 20}, sib.clone()}
+					switch sib.kind {
+					case 'b', 't':
+						vals = append(vals, &node{kind: sib.kind})
+					case 'a', 'm':
+						vals = append(vals, &node{kind: sib.kind})
+					}
+				}
+				var key *node
+				switch x.x.pairs[0][0].kind {
+				case 'u', 'n':
+					mx := uint64(0)
+					for _, pr := range x.x.pairs {
+						if pr[0].kind == 'u' && pr[0].n > mx && pr[0].n < 1<<62 {
+							mx = pr[0].n
+						}
+					}
+					key = &node{kind: 'u', n: mx + 1 + uint64(len(x.x.pairs))%7*14}
+				default:
+					key = &node{kind: 't', bs: []byte("zz" + string(x.x.pairs[0][0].bs))}
+				}
+				for _, v := range vals {
+					root := tree.clone()
+					rr := collect(&root)
+					mp := rr[ri].x
+					mp.pairs = append(mp.pairs, [2]*node{key.clone(), v.clone()})
+					m := mutation{Kind: "map-inject-" + string(v.kind) + strconv.FormatUint(v.n, 10), Path: x.path + "/" + keyName(key), Bytes: gencode(root)}
 					cases = append(cases, &tcase{class: "mut", sample: s, mut: m, stream: m.Bytes, sm: true})
 				}
 			}
@@ -708,6 +813,9 @@ func evaluate(a vh.Args, res *vh.Result, cases []*tcase) {
 				mm("prop", typ+rtKey("/valid", d.RtNote), d.RtNote, "C12 round trip", true)
 				continue
 			}
+			if factsViolation(typ, d.Facts, "a constructed value", mm) {
+				continue
+			}
 			if c.tree == nil {
 				mm("corr", typ+"/valid/outside-model", "the library's encoding is not a definite-length float-free item", "C12 (iv) model bytes = library bytes", false)
 				continue
@@ -755,6 +863,10 @@ func evaluate(a vh.Args, res *vh.Result, cases []*tcase) {
 				continue
 			}
 			accepted := !d.Err && !d.IsNil
+			// accessor-level validity of an accepted access structure (independent of the model's rules)
+			if accepted {
+				factsViolation(typ, d.Facts, "the value decoded from a "+c.mut.Kind+" mutation at "+c.mut.Path+" (re-encoding "+vh.Hex(d.Re)+")", mm)
+			}
 			// (iii)
 			if accepted {
 				switch verdict {
@@ -765,7 +877,10 @@ func evaluate(a vh.Args, res *vh.Result, cases []*tcase) {
 					mm("corr", keyBase+"/unknown-field-accepted", "a struct carries a key that names no field ("+c.mut.Kind+" at "+c.mut.Path+"), the implementation accepts it", "C12 (iii) unknown_field_rejected", true)
 					continue
 				case "invalid":
-					if r, _ := strconv.Atoi(arg); r < 100 {
+					if r, _ := strconv.Atoi(arg); r == 40 {
+						mm("corr", keyBase+"/missing-component-accepted", "the stream ("+c.mut.Kind+" at "+c.mut.Path+") lacks a declared component (absent, null or undefined) of a type whose UnmarshalCBOR validates, but the implementation accepts it; re-encoding "+vh.Hex(d.Re), "C12 (iii) decoding validates like construction: no component missing", true)
+						continue
+					} else if r < 100 {
 						mm("corr", keyBase+"/rule"+arg+"-accepted", "the stream ("+c.mut.Kind+" at "+c.mut.Path+") violates constructor rule "+arg+" ("+ruleText(r)+") but the implementation accepts it; re-encoding "+vh.Hex(d.Re), "C12 (iii) typed_decode_valid: decoding validates like construction", true)
 						continue
 					}
@@ -787,7 +902,11 @@ func evaluate(a vh.Args, res *vh.Result, cases []*tcase) {
 					if len(f) > 3 {
 						a2 = f[3]
 					}
-					if v2 != "valid" {
+					if v2 == "invalid" && a2 == "140" {
+						// plain message struct with a missing component: refused by Validate in the round
+						// function, not by the decoder — checked by the protocol sweep (sweep.go)
+						res.Distribution["mut:message-missing-component-left-to-Validate"]++
+					} else if v2 != "valid" {
 						mm("corr", keyBase+"/accepted-"+v2+a2, "the implementation accepted the stream and re-encodes the value as "+vh.Hex(d.Re)+", which the model classifies as "+v2+" "+a2+" ("+ruleTextS(a2)+")", "C12 (ii) typed_decode_valid: an accepted value satisfies the constructor rules", true)
 						continue
 					}
@@ -854,6 +973,25 @@ func evaluate(a vh.Args, res *vh.Result, cases []*tcase) {
 		}
 	}
 	res.Note("samples: %d values of %d types; model-covered typed schemas: %d types", countClass(cases, "valid"), countTypes(cases, false), countTypes(cases, true))
+}
+
+// factsViolation reports what the accessor-level facts of an accepted access structure say
+// (asfacts.go): inconsistent accessors, a value no constructor accepts, a second encoding.
+func factsViolation(typ, facts, what string, mm func(kind, key, detail, what string, propfail bool)) bool {
+	bad := false
+	if strings.Contains(facts, "accessors=bad") {
+		bad = true
+		mm("prop", typ+"/accessors-inconsistent", what+": "+facts, "C12 (ii) an accepted value satisfies the constructor rules on its public accessors (Shareholders() = IDs of the policy body, IsQualified = the policy)", true)
+	}
+	if strings.Contains(facts, "canon=norebuild") {
+		bad = true
+		mm("prop", typ+"/constructor-refuses-decoded-value", what+": the public constructor refuses the abstract value the accessors report: "+facts, "C12 (ii) decoding validates like construction", true)
+	}
+	if strings.Contains(facts, "canon=differs") {
+		bad = true
+		mm("prop", typ+"/second-accepted-encoding", what+": its encoding differs from the encoding of the same abstract value rebuilt through the constructor: "+facts, "C12 deterministic encoding: one abstract value, one encoding (encode_injective)", true)
+	}
+	return bad
 }
 
 // rtKey: all byte-instability reports of one type share a key (it is one defect of the type's
@@ -1025,6 +1163,8 @@ func ruleText(r int) string {
 		return "Pedersen share secret or blinding empty"
 	case 36:
 		return "Pedersen share secret and blinding lengths differ"
+	case 40, 140:
+		return "a declared component is missing, null or undefined"
 	case 101:
 		return "CNF sets form an antichain"
 	case 102:
